@@ -37,8 +37,23 @@ WHY = {}
          bounds="concrete seeds: the repository's examples/*.py main() programs; every package their to_proto / netlist calls produce is validated")
 def examples_closed(which):
     """run every example main(); capture each package produced by to_proto (netlist() goes through it)"""
+    ran, captured = capture_examples()
+    env.reached()
+    WHY["n"] = len(captured)
+    if ran < 7 or not captured:
+        return False
+    for pkg in captured:
+        why = _validate(pkg)
+        if why:
+            WHY["why"] = why
+            raise AssertionError(why)
+    return True
+
+
+def capture_examples():
+    import os
     env.reset_all()
-    sys.path.insert(0, "/repo")
+    sys.path.insert(0, os.environ.get("VERIF_REPO", "/repo"))
     import importlib
     import hdl21.netlisting as nl
     import hdl21.proto.exporting as ex
@@ -67,16 +82,7 @@ def examples_closed(which):
         sys.stdout = so
         for m, n, v in saved:
             setattr(m, n, v)
-    env.reached()
-    WHY["n"] = len(captured)
-    if ran < 7 or not captured:
-        return False
-    for pkg in captured:
-        why = _validate(pkg)
-        if why:
-            WHY["why"] = why
-            raise AssertionError(why)
-    return True
+    return ran, captured
 
 
 @harness("C06", args="which: int", concrete=True, sample=(0,),
